@@ -110,6 +110,7 @@ type AccessTok struct {
 }
 
 type RefreshTok struct {
+	ID         string // "" unless StorePolicy.RefreshIDs
 	Token      string
 	ClientID   string
 	Subject    string
@@ -204,6 +205,9 @@ type StorePolicy struct {
 	TE                   TEPolicy `json:"te"`
 	JWTProfileJWT        bool     `json:"jwt_profile_jwt,omitempty"` // JWTProfileTokenType returns JWT
 	PromptNoneLoginError bool     `json:"prompt_none_error,omitempty"`
+	// RefreshIDs: refresh records get an id ("rid-N") that differs from the token string; GetRefreshTokenInfo returns that id
+	// and RevokeToken finds refresh records by it only (as in storages whose refresh ids differ from the token value).
+	RefreshIDs bool `json:"refresh_ids,omitempty"`
 	ACR                  string   `json:"acr,omitempty"`
 }
 
@@ -512,6 +516,9 @@ func (s *Store) CreateAccessAndRefreshTokens(ctx context.Context, req op.TokenRe
 		Audience: slices.Clone(req.GetAudience()), Scopes: slices.Clone(req.GetScopes()), OrigScopes: orig,
 		AuthTime: authTime, AMR: amr, Exp: time.Now().Add(s.refreshTTL()), Lineage: lineage,
 	}
+	if s.Policy.RefreshIDs {
+		rt.ID = s.nextID("rid")
+	}
 	if current != "" && !s.Policy.NarrowPersists {
 		// the grant keeps its original breadth; only this access token is narrowed
 		rt.Scopes = slices.Clone(orig)
@@ -585,7 +592,7 @@ func (s *Store) RevokeToken(ctx context.Context, tokenOrID, userID, clientID str
 		} else {
 			at.Revoked = true
 		}
-	} else if rt, ok := s.Refresh[tokenOrID]; ok {
+	} else if rt, ok := s.refreshByRevocationID(tokenOrID); ok {
 		if rt.ClientID != clientID {
 			res = oidc.ErrInvalidClient().WithDescription("token was not issued for this client")
 		} else {
@@ -601,6 +608,20 @@ func (s *Store) RevokeToken(ctx context.Context, tokenOrID, userID, clientID str
 	return res
 }
 
+// refreshByRevocationID: the id RevokeToken receives for a refresh token is what GetRefreshTokenInfo returned.
+func (s *Store) refreshByRevocationID(id string) (*RefreshTok, bool) {
+	if !s.Policy.RefreshIDs {
+		rt, ok := s.Refresh[id]
+		return rt, ok
+	}
+	for _, rt := range s.Refresh {
+		if rt.ID == id {
+			return rt, true
+		}
+	}
+	return nil, false
+}
+
 func (s *Store) GetRefreshTokenInfo(ctx context.Context, clientID, token string) (string, string, error) {
 	f := s.enter("GetRefreshTokenInfo", clientID, token)
 	if f != nil && f.Kind != "partial" {
@@ -612,10 +633,14 @@ func (s *Store) GetRefreshTokenInfo(ctx context.Context, clientID, token string)
 	if !ok {
 		return "", "", op.ErrInvalidRefreshToken
 	}
-	if f != nil {
-		return rt.Subject, rt.Token, f.err()
+	id := rt.Token
+	if s.Policy.RefreshIDs {
+		id = rt.ID
 	}
-	return rt.Subject, rt.Token, nil
+	if f != nil {
+		return rt.Subject, id, f.err()
+	}
+	return rt.Subject, id, nil
 }
 
 func (s *Store) SigningKey(ctx context.Context) (op.SigningKey, error) {
@@ -952,7 +977,7 @@ func (s *Store) validateTokenExchangeRequest(ctx context.Context, r op.TokenExch
 		if r.GetExchangeSubjectTokenType() == oidc.AccessTokenType && !strings.HasPrefix(r.GetExchangeSubjectTokenIDOrToken(), "third:") {
 			_, lerr = s.liveToken(r.GetExchangeSubjectTokenIDOrToken(), r.GetExchangeSubject())
 		}
-		if lerr == nil && r.GetExchangeActorTokenType() == oidc.AccessTokenType && r.GetExchangeActorTokenIDOrToken() != "" &&
+		if lerr == nil && r.GetExchangeActorTokenType() == oidc.AccessTokenType && (r.GetExchangeActorTokenIDOrToken() != "" || r.GetExchangeActor() != "") &&
 			!strings.HasPrefix(r.GetExchangeActorTokenIDOrToken(), "third:") {
 			_, lerr = s.liveToken(r.GetExchangeActorTokenIDOrToken(), r.GetExchangeActor())
 		}
